@@ -237,6 +237,11 @@ def execute(line: str):
                 r_alone = None
             elif ev[0] == "r":
                 src = sims[ev[3]]
+                # reading the array is itself a call on the source (`get_array` makes the holder)
+                touch = ("h", ev[4])
+                run.call(src, touch, 0)
+                run.call(controls[ev[3]], touch, 0)
+                lineages[ev[3]].append(("call", touch, 0))
                 try:
                     a = src.get_array(run.names[ev[4]], su.real_period(ev[5])) if ev[4] < len(run.names) else None
                 except Exception:      # noqa: BLE001
@@ -244,7 +249,7 @@ def execute(line: str):
                 result = su.apply_set_from(sim, src, run.names, vt, ev)
                 r_alone = result
                 if a is not None:
-                    name = run.names[ev[1]] if ev[1] < len(run.names) else "v_unknown"
+                    name = run.names[ev[1]] if ev[1] < len(run.names) else f"v{ev[1]}"
                     item = ("array", name, ev[2], numpy.array(a, copy=True))
                     lineages[side].append(item)
                     run.replay(controls[side], [item])
@@ -313,11 +318,7 @@ def nontrivial(case: Case, out: str) -> bool:
 # --------------------------------------------------------------------------------------
 # generation
 
-
-def fmt_formula(f) -> str:
-    if f is None:
-        return "-"
-    return str(f[0]) + "".join(f"+{c}*{d}.{fmt_via(via)}.{pt}" for c, d, via, pt in f[1])
+DAYS = ["day/2018,1,1/1", "day/2018,1,2/1", "day/2017,12,31/1"]
 
 
 def fmt_via(via) -> str:
@@ -325,19 +326,39 @@ def fmt_via(via) -> str:
         return via
     if via[0] == "hr":
         return f"hr{via[1]}_" + "_".join(map(str, via[2]))
+    if via[0] == "nt":
+        return f"nt{via[1]}"
     return via[0] + "_".join(map(str, via[1]))
 
 
+def fmt_formula(f) -> str:
+    if f is None:
+        return "-"
+    return str(f[0]) + "".join(f"+{c}*{d}.{fmt_via(via)}.{pt}" for c, d, via, pt in f[1])
+
+
+def V(e, u, d, f, vt="f", black=False):
+    return (e, u, d, f, vt, black)
+
+
 def fmt_sys(sysd) -> str:
-    return ";".join(f"{e}:{u}:{d}:{fmt_formula(f)}" for e, u, d, f in sysd)
+    return ";".join(f"{e}:{u}{'' if vt == 'f' else '~' + vt}{'!' if black else ''}:{d}:{fmt_formula(f)}"
+                    for e, u, d, f, vt, black in sysd)
+
+
+def dots(xs) -> str:
+    return "-" if xs is None else ".".join(map(str, xs))
 
 
 def fmt_spec(spec) -> str:
-    n, groups, mem = spec
-    g = ",".join(f"{e}:{c}:{'.'.join(map(str, mei))}:{'-' if roles is None else '.'.join(map(str, roles))}"
-                 for e, c, mei, roles in groups) or "-"
-    m = "-" if mem is None else "d" + ".".join(map(str, mem))
-    return f"{n}/{g}/{m}"
+    n, groups, mem, opt_out, msl = spec
+    g = ",".join(f"{e}:{c}:{'.'.join(map(str, mei))}:{dots(roles)}:{dots(pos)}" for e, c, mei, roles, pos in groups) or "-"
+    m = "-" if mem is None else "d" + ".".join(map(str, mem[0])) + ("x" + ".".join(map(str, mem[1])) if mem[1] else "")
+    return f"{n}/{g}/{m}/o{1 if opt_out else 0}m{msl}"
+
+
+def S(n, groups=(), mem=None, opt_out=False, msl=1):
+    return (n, [tuple(g) + (None,) * (5 - len(g)) for g in groups], mem, opt_out, msl)
 
 
 def fmt_op(op) -> str:
@@ -345,19 +366,34 @@ def fmt_op(op) -> str:
         return f"s:{op[1]}:{op[2]}:{','.join(map(str, op[3]))}"
     if op[0] == "d":
         return f"d:{op[1]}:{'*' if op[2] is None else op[2]}"
-    if op[0] in "ka":
+    if op[0] in "kag":
         return f"{op[0]}:{op[1]}:{op[2]}"
     if op[0] == "t":
         return f"t:{1 if op[1] else 0}"
+    if op[0] == "n":
+        return f"n:{1 if op[1] else 0}{1 if op[2] else 0}"
+    if op[0] == "r":
+        return f"r:{op[1]}:{op[2]}:{su.SIDES[op[3]]}:{op[4]}:{op[5]}"
     return f"h:{op[1]}"
 
 
-def mk(sysd, spec, pre, trace, ops, tags=(), claimed=True) -> Case:
+def side_index(s) -> int:
+    return s if isinstance(s, int) else su.SIDES.index(s)
+
+
+def mk(sysd, spec, pre, flags, ops, tags=(), claimed=True) -> Case:
+    """flags: (trace, debug) of the first clone (or a bool = trace); ops: [(side, op)], side = index or 'o' / 'c'"""
+    if isinstance(flags, bool):
+        flags = (flags, False)
+    sysd = [tuple(v) + ("f", False)[len(v) - 4:] if len(v) < 6 else tuple(v) for v in sysd]
+    if len(spec) == 3:
+        spec = S(spec[0], spec[1], None if spec[2] is None else (spec[2], []))
     # `calculate_add` over the eternal period is C03's business (refused by repair C03, `0` before it)
     if any(o[0] == "a" and o[2] == ETERNITY for o in list(pre) + [o for _, o in ops]):
         claimed = False
-    line = (f"heap run {fmt_sys(sysd)} {fmt_spec(spec)} {';'.join(fmt_op(o) for o in pre) or '-'} {1 if trace else 0} "
-            f"{';'.join(s + fmt_op(o) for s, o in ops) or '-'}")
+    line = (f"heap run {fmt_sys(sysd)} {fmt_spec(spec)} {';'.join(fmt_op(o) for o in pre) or '-'} "
+            f"{1 if flags[0] else 0}{1 if flags[1] else 0} "
+            f"{';'.join(su.SIDES[side_index(s)] + fmt_op(o) for s, o in ops) or '-'}")
     return Case(line=line, payload=None, claimed=claimed, tags=tuple(tags))
 
 
@@ -378,22 +414,40 @@ def gen_spec(rng: random.Random):
                 if r == 3:
                     taken.add(g)
                 roles.append(r)
-        groups.append((e, count, mei, roles))
+        positions = None
+        if rng.random() < 0.5:        # positions assigned explicitly, often against the order of appearance
+            members = {g: [i for i, x in enumerate(mei) if x == g] for g in set(mei)}
+            positions = [0] * n
+            for g, idx in members.items():
+                order = list(range(len(idx)))
+                if rng.random() < 0.7:
+                    rng.shuffle(order)
+                for i, k in zip(idx, order):
+                    positions[i] = k
+        groups.append((e, count, mei, roles, positions))
     return n, groups
 
 
 def gen_system(rng: random.Random, groups):
-    """inputs first, then formulas reading earlier variables (plus, rarely, a spiral, a cycle, a unit or
-    entity mismatch)"""
+    """inputs first (of every value type), then formulas reading earlier numeric variables (plus, rarely, a spiral, a
+    cycle, a unit or an entity mismatch)"""
     gk = [g[0] for g in groups]
     sysd, tags = [], []
-    unit = lambda: rng.choice(["month", "month", "month", "year", "eternity"])
+    unit = lambda: rng.choice(["month", "month", "month", "year", "eternity", "day"] if rng.random() < 0.3 else
+                              ["month", "month", "month", "year", "eternity"])
     # inputs
-    sysd.append((0, "month", rng.choice([0, 0, 1, 5]), None))
-    sysd.append((0, unit(), rng.choice([0, 2]), None))
-    sysd.append((rng.choice(gk or [0]), unit(), rng.choice([0, 3]), None))
+    sysd.append(V(0, "month", rng.choice([0, 0, 1, 5]), None))
+    sysd.append(V(0, unit(), rng.choice([0, 2]), None, rng.choice("fffi")))
+    sysd.append(V(rng.choice(gk or [0]), unit(), rng.choice([0, 3]), None, rng.choice("ffib")) if rng.random() < 0.8
+                else V(rng.choice(gk or [0]), unit(), rng.choice([0, 1]), None, "b"))
     if rng.random() < 0.5:
-        sysd.append((rng.choice([0] + gk), "eternity", rng.choice([0, 7]), None))
+        sysd.append(V(rng.choice([0] + gk), "eternity", rng.choice([0, 7]), None))
+    if rng.random() < 0.6:            # an input that is not a number: enum, text, date
+        sysd.append(V(rng.choice([0] + gk), unit(), rng.choice([0, 3, 7]), None, rng.choice("esd")))
+        tags.append("typed-input")
+    if sysd[2][4] == "b":
+        sysd[2] = V(sysd[2][0], sysd[2][1], sysd[2][2] % 2, None, "b")
+    numeric = lambda d: sysd[d][4] in "fib"
     # formulas
     for _ in range(rng.randint(2, 4)):
         i = len(sysd)
@@ -402,7 +456,8 @@ def gen_system(rng: random.Random, groups):
         terms = []
         for _ in range(rng.choice([0, 1, 1, 2, 2, 3])):
             ok_units = lambda d: sysd[d][1] == u or sysd[d][1] == "eternity"
-            cands = [d for d in range(i) if ok_units(d)] if rng.random() < 0.95 else list(range(i))
+            cands = [d for d in range(i) if ok_units(d) and numeric(d)] if rng.random() < 0.95 else \
+                [d for d in range(i) if numeric(d)]
             if not cands:
                 continue
             d = rng.choice(cands)
@@ -415,9 +470,13 @@ def gen_system(rng: random.Random, groups):
                 via = "p"
             else:
                 continue            # group to another group: no direct path
-            if via == "m" and rng.random() < 0.5:
-                via = ("mr", rng.choice(su.STD_ROLES))       # role-filtered sum
-                tags.append("role-read")
+            if via == "m" and rng.random() < 0.6:
+                if rng.random() < 0.7:
+                    via = ("mr", rng.choice(su.STD_ROLES))       # role-filtered sum
+                    tags.append("role-read")
+                else:
+                    via = ("nt", rng.choice([0, 0, 1, 2]))       # the member at a position (positions, ordering map)
+                    tags.append("position-read")
             if not ok_units(d):
                 tags.append("unit-mismatch")
             pt = "l" if (u == "month" and sysd[d][1] == "month" and rng.random() < 0.15) else "s"
@@ -428,6 +487,9 @@ def gen_system(rng: random.Random, groups):
             else:
                 terms.append((rng.choice([1, 10]), 0, ("nb", rng.choice(su.STD_ROLES)), "s"))
             tags.append("role-read")
+        if u != "eternity" and rng.random() < 0.15:
+            terms.append((rng.choice([1, 2]), 0, "pa", "s"))    # a parameter read (three-argument formula)
+            tags.append("parameter")
         r = rng.random()
         if r < 0.06 and u == "month":
             terms.append((1, i, "s", "l"))          # v(p) = … + v(p.last_month): a spiral
@@ -437,10 +499,10 @@ def gen_system(rng: random.Random, groups):
             tags.append("cycle")
         elif r < 0.11 and i > 0:
             d = rng.randrange(i)
-            if sysd[d][0] != e:
+            if sysd[d][0] != e and numeric(d):
                 terms.append((1, d, "s", "s"))      # read through the wrong entity: refused
                 tags.append("entity-mismatch")
-        sysd.append((e, u, rng.choice([0, 0, 4]), (rng.choice([0, 0, 1, 10]), terms)))
+        sysd.append(V(e, u, rng.choice([0, 0, 4]), (rng.choice([0, 0, 1, 10]), terms), "f", rng.random() < 0.25))
     return sysd, tags
 
 
@@ -449,26 +511,42 @@ def own_period(rng: random.Random, unit: str) -> str:
         return rng.choice(MONTHS)
     if unit == "year":
         return rng.choice(YEARS)
+    if unit == "day":
+        return rng.choice(DAYS)
     return rng.choice([ETERNITY, ETERNITY, M1, Y18])
 
 
 def any_period(rng: random.Random) -> str:
-    return rng.choice(MONTHS + YEARS + [ETERNITY, "month/2018,1,1/3", "year/2017,1,1/2"])
+    return rng.choice(MONTHS + YEARS + [ETERNITY, "month/2018,1,1/3", "year/2017,1,1/2", DAYS[0]])
 
 
-def gen_op(rng: random.Random, sysd, spec, tags):
-    n, groups, _ = spec
+def gen_values(rng: random.Random, vt: str, k: int):
+    pool = {"f": [0, 1, 2, 3, 5, 8, -1], "i": [0, 1, 2, 3, 5, 8, -1], "b": [0, 1], "e": [0, 1, 2, 5, 9],
+            "s": [0, 1, 2, 7], "d": [0, 1, 365, 17000]}[vt]
+    return [rng.choice(pool) for _ in range(max(k, 0))]
+
+
+def gen_op(rng: random.Random, sysd, spec, tags, live=1):
+    n, groups = spec[0], spec[1]
     count = {0: n, **{g[0]: g[1] for g in groups}}
     nv = len(sysd)
+    numeric = [i for i in range(nv) if sysd[i][4] in "fib"]
     r = rng.random()
-    if r < 0.33:
+    if r < 0.31:
         v = rng.randrange(nv) if rng.random() < 0.3 else rng.choice([i for i in range(nv) if sysd[i][3] is None])
         p = own_period(rng, sysd[v][1]) if rng.random() < 0.9 else any_period(rng)
         k = count.get(sysd[v][0], 1)
         if rng.random() < 0.04:
             k += rng.choice([-1, 1])
             tags.append("bad-length")
-        return ("s", v, p, [rng.choice([0, 1, 2, 3, 5, 8, -1]) for _ in range(max(k, 0))])
+        return ("s", v, p, gen_values(rng, sysd[v][4], k))
+    if r < 0.34:
+        v = rng.choice([i for i in range(nv) if sysd[i][4] in "fi"])
+        tags.append("bad-dtype")
+        return ("g", v, own_period(rng, sysd[v][1]) if rng.random() < 0.8 else any_period(rng))
+    if r < 0.36:
+        tags.append("unknown-variable")
+        return rng.choice([("k", nv, M1), ("d", nv, M1), ("s", nv, M1, [1] * n), ("a", nv, Y18)])
     if r < 0.5:
         v = rng.randrange(nv)
         q = rng.random()
@@ -478,12 +556,14 @@ def gen_op(rng: random.Random, sysd, spec, tags):
         v = rng.randrange(nv)
         return ("k", v, own_period(rng, sysd[v][1]) if rng.random() < 0.93 else any_period(rng))
     if r < 0.9:
-        v = rng.randrange(nv)
+        v = rng.choice(numeric)
         q = rng.random()
         if sysd[v][1] == "month" and q < 0.8:
             p = rng.choice([Y18, "month/2018,1,1/3", "month/2017,12,1/2", M1])
         elif sysd[v][1] == "year" and q < 0.8:
             p = rng.choice([Y18, "year/2017,1,1/2"])
+        elif sysd[v][1] == "day" and q < 0.8:
+            p = rng.choice(["day/2018,1,1/2", "day/2017,12,31/3"])
         else:
             p = any_period(rng)
         return ("a", v, p)
@@ -492,61 +572,98 @@ def gen_op(rng: random.Random, sysd, spec, tags):
     return ("h", rng.randrange(nv))
 
 
+def gen_events(rng: random.Random, sysd, spec, tags, lo: int, hi: int):
+    """interleaved calls on every live simulation, with further clones (of the original, of a clone, of a clone's
+    clone) and inputs fed with an array object another simulation holds"""
+    n, groups = spec[0], spec[1]
+    count = {0: n, **{g[0]: g[1] for g in groups}}
+    live = 2
+    events = []
+    for _ in range(rng.randint(lo, hi)):
+        side = rng.randrange(live)
+        r = rng.random()
+        if r < 0.09 and live < 5:
+            src = side if rng.random() < 0.5 else live - 1         # chains: the newest clone is cloned again
+            events.append((src, ("n", rng.random() < 0.3, rng.random() < 0.3)))
+            live += 1
+            tags.append(f"sims={live}")
+            continue
+        if r < 0.17:
+            # an array object held by some simulation (often another one) is handed to set_input
+            w = rng.randrange(len(sysd))
+            v = rng.choice([i for i in range(len(sysd)) if sysd[i][0] == sysd[w][0] and sysd[i][4] == sysd[w][4]] or [w])
+            events.append((side, ("r", v, own_period(rng, sysd[v][1]), rng.randrange(live), w, own_period(rng, sysd[w][1]))))
+            tags.append("array-handed-over")
+            continue
+        events.append((side, gen_op(rng, sysd, spec, tags)))
+    # make collisions likely: repeat an earlier call's variable and period on another simulation
+    for i in range(1, len(events)):
+        if rng.random() < 0.25:
+            s0, o0 = events[rng.randrange(i)]
+            if o0[0] in "skad" and o0[1] < len(sysd):
+                upto = 2 + sum(1 for _, e in events[:i] if e[0] == "n")
+                other = rng.choice([x for x in range(upto) if x != s0] or [s0])
+                if events[i][1][0] == "n":
+                    continue
+                kind = rng.choice("skd")
+                if kind == "s" and o0[2] is not None:
+                    k = count.get(sysd[o0[1]][0], 1)
+                    events[i] = (other, ("s", o0[1], o0[2], gen_values(rng, sysd[o0[1]][4], k)))
+                elif kind == "k" and o0[2] is not None:
+                    events[i] = (other, ("k", o0[1], o0[2]))
+                else:
+                    events[i] = (other, ("d", o0[1], o0[2] if o0[0] != "s" or rng.random() < 0.5 else None))
+    return events
+
+
 def gen_case(rng: random.Random, disk: bool, lo: int, hi: int) -> Case:
     n, groups = gen_spec(rng)
     sysd, tags = gen_system(rng, groups)
     mem = None
     if disk:
-        mem = sorted(rng.sample(range(len(sysd)), rng.choice([0, 0, 1, 2])))
+        mem = (sorted(rng.sample(range(len(sysd)), rng.choice([0, 0, 1, 2]))),
+               sorted(rng.sample(range(len(sysd)), rng.choice([0, 0, 1, 2]))))
         tags.append("disk")
     else:
         tags.append("memory")
-    spec = (n, groups, mem)
+    opt_out = rng.random() < 0.3
+    msl = rng.choice([1, 1, 1, 2, 3])
+    spec = (n, groups, mem, opt_out, msl)
     pre = [gen_op(rng, sysd, spec, tags) for _ in range(rng.choice([0, 1, 2, 3, 4, 5, 6]))]
     if rng.random() < 0.25:
         pre += [("h", v) for v in range(len(sysd))]          # every holder exists before cloning
         tags.append("all-holders")
-    ops = [(rng.choice("oc"), gen_op(rng, sysd, spec, tags)) for _ in range(rng.randint(lo, hi))]
-    # make collisions likely: repeat an earlier operation's variable and period on the other side
-    for i in range(1, len(ops)):
-        if rng.random() < 0.25:
-            s0, o0 = ops[rng.randrange(i)]
-            if o0[0] in "skad":
-                other = "c" if s0 == "o" else "o"
-                kind = rng.choice("skd")
-                if kind == "s" and o0[2] is not None:
-                    k = {0: n, **{g[0]: g[1] for g in groups}}.get(sysd[o0[1]][0], 1)
-                    ops[i] = (other, ("s", o0[1], o0[2], [rng.choice([4, 6, 7, 9]) for _ in range(k)]))
-                elif kind == "k" and o0[2] is not None:
-                    ops[i] = (other, ("k", o0[1], o0[2]))
-                else:
-                    ops[i] = (other, ("d", o0[1], o0[2] if o0[0] != "s" or rng.random() < 0.5 else None))
-    tags.append(f"ops={len(ops)}")
+    events = gen_events(rng, sysd, spec, tags, lo, hi)
+    tags.append(f"ops={len(events)}")
     tags.append(f"pre={len(pre)}")
-    return mk(sysd, spec, pre, rng.random() < 0.2, ops, tags)
+    return mk(sysd, spec, pre, (rng.random() < 0.25, rng.random() < 0.25), events, tags)
 
 
 MALFORMED = [
-    "heap", "heap run", "heap run - 1/-/- - 0", "heap run 0:month:0:- 1/-/- - 2 -", "heap run 0:month:0 1/-/- - 0 -",
-    "heap run 0:fortnight:0:- 1/-/- - 0 -", "heap run 0:month:0:- 1/-/x - 0 -", "heap run 0:month:0:- 1/- - 0 -",
-    "heap run 0:month:0:- 1/-/- q:0 0 -", "heap run 0:month:0:- 1/-/- - 0 xs:0:eternity:1",
-    "heap run 0:month:0:- 1/-/- - 0 os:0:month/2018,1/1:1", "heap run 0:month:0:- 1/-/- - 0 os:0:eternity:a",
-    "heap run 0:month:0:1+2*0 1/-/- - 0 -", "heap run 0:month:0:1+2*0.x.s 1/-/- - 0 -", "heap clone 1 2",
-    "heap run 0:month:0:- 1/1:1:0/- - 0 -", "heap run 0:month:0:- 1/1:1:0:4/- - 0 -", "heap run 0:month:0:-;1:month:0:0+1*0.mr4.s 1/1:1:0:-/- - 0 -", "heap run 0:month:0:0+1*0.nb2.s 1/1:1:0:-/- - 0 -", "heap run 0:month:0:- 1/-/- - 0 ot:2",
+    "heap", "heap run", "heap run - 1/-/-/o0m1 - 00", "heap run 0:month:0:- 1/-/-/o0m1 - 2 -", "heap run 0:month:0 1/-/-/o0m1 - 00 -",
+    "heap run 0:fortnight:0:- 1/-/-/o0m1 - 00 -", "heap run 0:month:0:- 1/-/x/o0m1 - 00 -", "heap run 0:month:0:- 1/-/- - 00 -",
+    "heap run 0:month:0:- 1/-/-/o0m1 q:0 00 -", "heap run 0:month:0:- 1/-/-/o0m1 - 00 xs:0:eternity:1",
+    "heap run 0:month:0:- 1/-/-/o0m1 - 00 os:0:month/2018,1/1:1", "heap run 0:month:0:- 1/-/-/o0m1 - 00 os:0:eternity:a",
+    "heap run 0:month:0:1+2*0 1/-/-/o0m1 - 00 -", "heap run 0:month:0:1+2*0.x.s 1/-/-/o0m1 - 00 -", "heap clone 1 2",
+    "heap run 0:month:0:- 1/1:1:0:-:-/-/o0m1 - 00 ot:2", "heap run 0:month:0:- 1/1:1:0:4:-/-/o0m1 - 00 -",
+    "heap run 0:month:0:-;1:month:0:0+1*0.mr4.s 1/1:1:0:-:-/-/o0m1 - 00 -", "heap run 0:month:0:0+1*0.nb2.s 1/1:1:0:-:-/-/o0m1 - 00 -",
+    "heap run 0:month:0:- 1/-/-/o0m1 - 00 2k:0:eternity", "heap run 0:month:0:- 1/-/-/o2m1 - 00 -", "heap run 0:month~q:0:- 1/-/-/o0m1 - 00 -",
+    "heap run 0:month:0:- 1/1:1:0:-:0.0/-/o0m1 - 00 -", "heap run 0:month:0:- 1/-/-/o0m1 - 00 or:0:eternity:3:0:eternity",
 ]
 
 
 def gen_spiral_case(rng: random.Random, lo: int, hi: int) -> Case:
     """variables defined from their own past (`v(p) = c + v(p.last_month) [+ …]`): every calculation runs into the
-    spiral rule, marks cache entries for deletion and purges them at the end — on both sides, interleaved"""
+    spiral rule (with max_spiral_loops 1, 2 or 3), marks cache entries for deletion and purges them at the end — on
+    every simulation, interleaved, with clones made after such calculations"""
     n, groups = gen_spec(rng)
-    sysd = [(0, "month", rng.choice([0, 1]), None),
-            (0, "month", 0, (rng.choice([1, 2]), [(1, 1, "s", "l")] + ([(1, 0, "s", "s")] if rng.random() < 0.5 else [])))]
+    sysd = [V(0, "month", rng.choice([0, 1]), None),
+            V(0, "month", 0, (rng.choice([1, 2]), [(1, 1, "s", "l")] + ([(1, 0, "s", "s")] if rng.random() < 0.5 else [])))]
     if rng.random() < 0.6:
-        sysd.append((0, "month", 0, (0, [(1, 1, "s", rng.choice("sl")), (2, 0, "s", "s")])))
+        sysd.append(V(0, "month", 0, (0, [(1, 1, "s", rng.choice("sl")), (2, 0, "s", "s")])))
     if rng.random() < 0.4:
-        sysd.append((0, "month", 3, (1, [(1, len(sysd), "s", "l"), (1, 1, "s", "s")])))
-    spec = (n, groups, None)
+        sysd.append(V(0, "month", 3, (1, [(1, len(sysd), "s", "l"), (1, 1, "s", "s")])))
+    spec = (n, groups, None, False, rng.choice([1, 1, 2, 3]))
     tags = ["spiral-family", "memory"]
 
     def op():
@@ -563,13 +680,19 @@ def gen_spiral_case(rng: random.Random, lo: int, hi: int) -> Case:
         return ("t", rng.random() < 0.5)
 
     pre = [op() for _ in range(rng.choice([0, 0, 1, 2]))]
-    ops = [(rng.choice("oc"), op()) for _ in range(rng.randint(lo, hi))]
-    tags += [f"ops={len(ops)}", f"pre={len(pre)}"]
-    return mk(sysd, spec, pre, rng.random() < 0.2, ops, tags)
+    events, live = [], 2
+    for _ in range(rng.randint(lo, hi)):
+        if rng.random() < 0.08 and live < 4:
+            events.append((rng.randrange(live), ("n", rng.random() < 0.3, False)))
+            live += 1
+        else:
+            events.append((rng.randrange(live), op()))
+    tags += [f"ops={len(events)}", f"pre={len(pre)}", f"sims={live}"]
+    return mk(sysd, spec, pre, (rng.random() < 0.2, False), events, tags)
 
 
 def generate(rng: random.Random, tier: str):
-    n_mem, n_disk, n_spiral, lo, hi = (2600, 800, 500, 5, 12) if tier == "quick" else (30000, 10000, 5000, 5, 15)
+    n_mem, n_disk, n_spiral, lo, hi = (1700, 550, 350, 5, 12) if tier == "quick" else (24000, 8000, 4000, 5, 15)
     out = [gen_case(rng, False, lo, hi) for _ in range(n_mem)]
     out += [gen_case(rng, True, lo, hi) for _ in range(n_disk)]
     out += [gen_spiral_case(rng, lo, hi) for _ in range(n_spiral)]
@@ -578,13 +701,16 @@ def generate(rng: random.Random, tier: str):
 
 
 def neighbours(case: Case):
-    """the same history with one operation removed (before or after the clone)"""
+    """the same history with one call removed (before or after the first clone; clone events are kept, so that the
+    simulation indices stay valid)"""
     f = case.line.split()
     if len(f) != 7:
         return []
     pre, ops = su._split(f[4], ";"), su._split(f[6], ";")
     out = []
     for i in range(len(ops)):
+        if ops[i][1:3] == "n:":
+            continue
         out.append(Case(line=" ".join(f[:6] + [";".join(ops[:i] + ops[i + 1:]) or "-"]), tags=("neighbour",)))
     for i in range(len(pre)):
         out.append(Case(line=" ".join(f[:4] + [";".join(pre[:i] + pre[i + 1:]) or "-"] + f[5:]), tags=("neighbour",)))
@@ -619,11 +745,24 @@ def corpus():
         # seeded change C13-3: a clone that does not carry `_members_role` over gives every member the first role
         mk(roles, (3, [(1, 2, [0, 0, 1], [0, 2, 3])], None), [("s", 0, M1, [1, 2, 3])], False,
            [("c", ("k", 1, M1)), ("o", ("k", 2, M1)), ("c", ("k", 2, M1))], ("corpus", "roles")),
+        # a clone of a clone of a clone, each operated; an array object handed from one simulation to another, then summed
+        mk([V(0, "month", 0, None), V(0, "month", 0, (1, [(2, 0, "s", "s")])), V(0, "month", 0, None, "e"), V(0, "month", 0, None, "s"),
+            V(0, "eternity", 3, None, "d")], S(2), [("s", 0, M1, [1, 2]), ("k", 1, M1), ("s", 2, M1, [3, 9]), ("s", 3, M1, [4, 7])], (True, True),
+           [(1, ("n", False, True)), (2, ("n", True, False)), (3, ("s", 0, M1, [5, 5])), (3, ("k", 1, M1)), (0, ("k", 1, M1)),
+            (1, ("r", 0, M2, 3, 1, M1)), (2, ("r", 0, M3, 0, 1, M1)), (1, ("a", 0, "month/2018,1,1/3")), (3, ("a", 1, "month/2018,1,1/2")),
+            (2, ("s", 2, M1, [0, 1])), (0, ("d", 3, None)), (3, ("s", 4, ETERNITY, [17000, 0])), (1, ("k", 4, M1)), (2, ("g", 0, M1)),
+            (0, ("k", 5, M1))], ("corpus", "chain")),
+        # opt_out_cache with a blacklisted formula, max_spiral_loops = 2, a dropped variable and typed inputs on disk
+        mk([V(0, "month", 0, None), V(0, "month", 0, (1, [(1, 0, "s", "s"), (1, 0, "pa", "s")]), "f", True),
+            V(0, "month", 0, (1, [(1, 2, "s", "l")])), V(0, "month", 2, None, "e"), V(0, "month", 1, (0, []))],
+           (2, [], ([0], [4]), True, 2), [("s", 0, M1, [1, 2]), ("k", 1, M1), ("k", 2, M3), ("s", 3, M1, [5, 6]), ("k", 4, M1)], (False, True),
+           [(1, ("k", 1, M1)), (1, ("k", 2, M3)), (0, ("k", 2, M2)), (1, ("n", True, False)), (2, ("k", 4, M2)), (2, ("s", 3, M2, [1, 1])),
+            (0, ("k", 3, M2))], ("corpus", "config")),
         # the example of Props/C13.lean
         mk([(0, "month", 0, None), (0, "month", 5, (3, [(2, 0, "s", "s")])), (1, "month", 0, (0, [(1, 0, "m", "s")])),
             (0, "eternity", 7, None),
             (1, "month", 0, (0, [(1, 0, ("mr", (2,)), "s"), (10, 0, ("nb", (3,)), "s")])),
-            (0, "month", 0, (0, [(1, 0, ("hr", 1, (2,)), "s")]))], (3, [(1, 2, [0, 0, 1], [0, 2, 3])], None),
+            (0, "month", 0, (0, [(1, 0, ("hr", 1, (2,)), "s")]))], (3, [(1, 2, [0, 0, 1], [0, 2, 3], [1, 0, 0])], None),
            [("s", 0, M1, [1, 2, 3]), ("k", 1, M1)], False,
            [("c", ("k", 2, M1)), ("c", ("k", 4, M1)), ("o", ("s", 0, M1, [4, 4, 4])), ("o", ("k", 4, M1)),
             ("o", ("k", 5, M1)), ("c", ("d", 0, None)), ("o", ("k", 1, M2)),
